@@ -183,12 +183,21 @@ def random_insertions(info, rng, language):
             ins.append((after, "lines", [""] * rng.randint(1, 3)))
         elif k < 0.3:
             ins.append((after, "lines", [" " * rng.randint(1, 8) + ("\t" if rng.random() < 0.3 else "")]))
+        elif k < 0.36:
+            # whitespace that some line-splitting conventions (str.splitlines) treat as a line break: it is still ONE physical line
+            ins.append((after, "lines", [rng.choice(["\x0c", " \x0c", "\x0b", "\x0c\x0c", "\t\x0c "])]))
+        elif k < 0.42:
+            c = comment_lines(language, rng, indent)
+            c[0] = c[0] + rng.choice([" \x0c page", " \x85 nel", " \u2028 ls", " \x0b vt", " \x1c fs", " \u2029 ps"])
+            ins.append((after, "lines", c))
         elif k < 0.7:
             ins.append((after, "lines", comment_lines(language, rng, indent)))
         elif k < 0.9:
             ins.append((after, "trail", trailing_comment(language, rng)))
-        else:
+        elif rng.random() < 0.8:
             ins.append((after, "trail", " " * rng.randint(1, 4)))
+        else:
+            ins.append((after, "trail", rng.choice([" \x0c", "\t\x0b", trailing_comment(language, rng) + " \x85\u2028"])))
     return ins
 
 
